@@ -294,21 +294,9 @@ func (w *c09Worker) alive() string {
 			res <- "state-" + s.State().String()
 			return
 		}
-		lt, _ := strconv.ParseUint(st["event_time"], 10, 64)
-		w.probeN++
-		name := fmt.Sprintf("c09probe%d", w.probeN)
-		c := make(chan struct{}, 1)
-		w.userEvs.Store(name, c)
-		defer w.userEvs.Delete(name)
-		if lt > 1<<63 { // the fuzz drove the event clock near its top: a later time does not exist
+		if w.probe(20 * time.Second) {
 			res <- "serving"
-			return
-		}
-		w.n.Conf.MemberlistConfig.Delegate.NotifyMsg(encodeWire(msgUserEventType, &wireUserEvent{LTime: lt + 1, Name: name}))
-		select {
-		case <-c:
-			res <- "serving"
-		case <-time.After(20 * time.Second):
+		} else {
 			res <- "probe-event-not-delivered"
 		}
 	}()
@@ -317,6 +305,28 @@ func (w *c09Worker) alive() string {
 		return r
 	case <-time.After(40 * time.Second):
 		return "hang"
+	}
+}
+
+// probe: a fresh user event injected through NotifyMsg comes out at the application.  Events pass the
+// internal-query stage in order, so once the probe is out every earlier query has been dispatched.
+func (w *c09Worker) probe(d time.Duration) bool {
+	lt, _ := strconv.ParseUint(w.n.S.Stats()["event_time"], 10, 64)
+	if lt > 1<<63 { // the inputs drove the event clock near its top: a later time does not exist
+		time.Sleep(20 * time.Millisecond)
+		return true
+	}
+	w.probeN++
+	name := fmt.Sprintf("c09probe%d", w.probeN)
+	c := make(chan struct{}, 1)
+	w.userEvs.Store(name, c)
+	defer w.userEvs.Delete(name)
+	w.n.Conf.MemberlistConfig.Delegate.NotifyMsg(encodeWire(msgUserEventType, &wireUserEvent{LTime: lt + 1, Name: name}))
+	select {
+	case <-c:
+		return true
+	case <-time.After(d):
+		return false
 	}
 }
 
@@ -351,6 +361,7 @@ func c09WorkerExec(ops []string) []string {
 			if len(f) == 2 {
 				ms, _ = strconv.Atoi(f[1])
 			}
+			c09W.probe(20 * time.Second)
 			dl := time.Now().Add(time.Duration(ms) * time.Millisecond)
 			for runtime.NumGoroutine() > c09W.baseG && time.Now().Before(dl) {
 				time.Sleep(300 * time.Microsecond)
@@ -411,7 +422,7 @@ func c09Start() (*c09Proc, error) {
 	return &c09Proc{cmd: cmd, in: in, out: sc, stderr: t}, nil
 }
 
-var c09Frame = regexp.MustCompile(`github\.com/hashicorp/serf/(serf|coordinate)\.([^\s(]+(?:\([^)]*\))?[^\s(]*)\(`)
+var c09Frame = regexp.MustCompile(`github\.com/hashicorp/serf/(serf|coordinate)\.(\(\*?\w+\)\.\w+|\w+)`)
 
 // site: the innermost serf/coordinate function on the panicking goroutine's stack.
 func (p *c09Proc) site() string {
@@ -454,6 +465,9 @@ func c09Run(ops []string, settleFrom int) (answers []string, confirmed int, died
 				bw.Flush()
 			}
 		}
+		if settleFrom >= len(ops) {
+			fmt.Fprintf(bw, "case ends\nsettle 1500\n")
+		}
 		bw.Flush()
 		p.in.Close()
 	}()
@@ -473,15 +487,16 @@ func c09Run(ops []string, settleFrom int) (answers []string, confirmed int, died
 			continue
 		}
 		if strings.HasSuffix(cur, "s") {
-			if n, _ := strconv.Atoi(strings.TrimSuffix(cur, "s")); n >= settleFrom {
+			if n, err := strconv.Atoi(strings.TrimSuffix(cur, "s")); err == nil && n >= settleFrom {
 				confirmed = n + 1
 			}
 			continue
 		}
 		answers = append(answers, l[i+4:])
 	}
+	sawEnd := cur == "ends" || settleFrom < len(ops)
 	err = p.cmd.Wait()
-	if err != nil || len(answers) < len(ops) {
+	if err != nil || len(answers) < len(ops) || !sawEnd {
 		return answers, confirmed, true, p.site()
 	}
 	return answers, len(ops), false, ""
